@@ -55,6 +55,44 @@ func init() {
 		Judge:   "C25.judge", Shard: 12, Run: run})
 }
 
+
+// interner: byte strings of a case are bound once with let (string literals are
+// by far the slowest thing for Coq to elaborate) and referenced by name.
+type interner struct {
+	names map[string]string
+	order []string
+}
+
+var cur = &interner{names: map[string]string{}}
+
+func resetIntern() { cur = &interner{names: map[string]string{}} }
+
+// S is the interned counterpart of coqfmt.Str.
+func S(s string) string {
+	if s == "" {
+		return Str(s)
+	}
+	if n, ok := cur.names[s]; ok {
+		return n
+	}
+	n := fmt.Sprintf("w%d", len(cur.order))
+	cur.names[s] = n
+	cur.order = append(cur.order, s)
+	return n
+}
+
+// wrap puts the let bindings of the interned strings around a term.
+func wrap(term string) string {
+	var sb strings.Builder
+	sb.WriteString("(")
+	for i, s := range cur.order {
+		fmt.Fprintf(&sb, "let w%d := %s in ", i, Str(s))
+	}
+	sb.WriteString(term)
+	sb.WriteString(")")
+	return sb.String()
+}
+
 // ---------------------------------------------------------------- operations
 
 type op struct {
@@ -88,7 +126,7 @@ func F64(x float64) string {
 func (o op) coq() string {
 	switch o.K {
 	case "add":
-		return App("OAddCmd", Str(o.Text))
+		return App("OAddCmd", S(o.Text))
 	case "del":
 		return App("ODelCmd", Z(int64(o.A)))
 	case "get":
@@ -96,19 +134,19 @@ func (o op) coq() string {
 	case "list":
 		return App("OCmds", Z(int64(o.A)), Z(int64(o.B)))
 	case "next":
-		return App("ONextCmd", Z(int64(o.A)), Str(o.Text))
+		return App("ONextCmd", Z(int64(o.A)), S(o.Text))
 	case "prev":
-		return App("OPrevCmd", Z(int64(o.A)), Str(o.Text))
+		return App("OPrevCmd", Z(int64(o.A)), S(o.Text))
 	case "seq":
 		return "ONextCmdSeq"
 	case "adddir":
-		return App("OAddDir", Str(o.Text), F64(o.Factor))
+		return App("OAddDir", S(o.Text), F64(o.Factor))
 	case "deldir":
-		return App("ODelDir", Str(o.Text))
+		return App("ODelDir", S(o.Text))
 	case "dirs":
 		l := make([]string, len(o.BL))
 		for i, d := range o.BL {
-			l[i] = Str(d)
+			l[i] = S(d)
 		}
 		return App("ODirs", List(l))
 	}
@@ -137,7 +175,7 @@ func errKind(err error) string {
 func coqCmds(cmds []storedefs.Cmd) string {
 	l := make([]string, len(cmds))
 	for i, x := range cmds {
-		l[i] = Pair(Str(x.Text), Z(int64(x.Seq)))
+		l[i] = Pair(S(x.Text), Z(int64(x.Seq)))
 	}
 	return App("RCmds", List(l))
 }
@@ -145,7 +183,7 @@ func coqCmds(cmds []storedefs.Cmd) string {
 func coqDirs(ds []storedefs.Dir) string {
 	l := make([]string, len(ds))
 	for i, x := range ds {
-		l[i] = Pair(Str(x.Path), F64(x.Score))
+		l[i] = Pair(S(x.Path), F64(x.Score))
 	}
 	return App("RDirs", List(l))
 }
@@ -169,7 +207,7 @@ func exec1(st storedefs.Store, o op) (string, string) {
 		if err != nil {
 			return errKind(err), err.Error()
 		}
-		return App("RText", Str(t)), strconv.Quote(t)
+		return App("RText", S(t)), strconv.Quote(t)
 	case "list":
 		cmds, err := st.CmdsWithSeq(o.A, o.B)
 		if err != nil {
@@ -187,7 +225,7 @@ func exec1(st storedefs.Store, o op) (string, string) {
 		if err != nil {
 			return errKind(err), err.Error()
 		}
-		return App("RCmd", Str(x.Text), Z(int64(x.Seq))), fmt.Sprintf("%q@%d", x.Text, x.Seq)
+		return App("RCmd", S(x.Text), Z(int64(x.Seq))), fmt.Sprintf("%q@%d", x.Text, x.Seq)
 	case "seq":
 		s, err := st.NextCmdSeq()
 		if err != nil {
@@ -540,6 +578,7 @@ func oneCase(c *reg.Ctx, p *plan, km killMode, calibrate bool) {
 	if km.Kind == "none" {
 		class = "no-kill"
 	}
+	resetIntern()
 	d := desc{Class: class, Seq0: p.seq0}
 	rc := reg.Case{Class: class}
 	var rounds []string
@@ -631,7 +670,7 @@ func oneCase(c *reg.Ctx, p *plan, km killMode, calibrate bool) {
 	js, _ := json.Marshal(d)
 	sum := sha1.Sum(js)
 	if rc.Direct == "" {
-		rc.Coq = App("mkCase", N(p.seq0), List(rounds), List(tail))
+		rc.Coq = wrap(App("mkCase", N(p.seq0), List(rounds), List(tail)))
 	}
 	rc.Desc = d
 	rc.Key = fmt.Sprintf("%x", sum[:8])
